@@ -7,7 +7,7 @@ import json
 from .. import common
 
 
-def parse(prop):
+def parse(prop, aged=False):
     ap = argparse.ArgumentParser(prog=f"check {prop}")
     ap.add_argument("--tier", default=None)
     ap.add_argument("--replay", default=None)
@@ -16,4 +16,12 @@ def parse(prop):
     t = a.tier or common.tier()
     rep = common.Report(prop=prop, tier=t, seed=common.seed())
     replay = json.loads(open(a.replay).read()) if a.replay else None
+    if aged:
+        # clauses are evaluated on objects that have lived through TLC-enumerated histories (harness/aging.py)
+        from .. import aging
+        aging.enable(rep)
+        if replay is not None:
+            sc = replay.get("scenario", {})
+            aging.set_scenario(sc.get("index", 0) if isinstance(sc, dict) else 0)
+            aging._ST["rate"] = 1
     return a, rep, replay
